@@ -10,6 +10,15 @@ def h64(obj):
     return int.from_bytes(hashlib.blake2b(s.encode("utf8", "surrogatepass"), digest_size=8).digest(), "big")
 
 
+def level_of(ctx, obj):
+    """a validation level (0-3) derived from the case content: operations on valid input must work
+    at every level, and the choice is reproducible in replays."""
+    lvl = h64([str(x) for x in obj] if isinstance(obj, (list, tuple)) else str(obj)) % 5
+    lvl = 1 if lvl == 4 else lvl
+    ctx.count("built_at_level_%d" % lvl)
+    return lvl
+
+
 class HarnessError(Exception):
     """raised by harness code when it cannot do its job (=> inconclusive, never a violation)"""
 
